@@ -129,8 +129,11 @@ def run(tier):
     res = C.run_tlc('Trace_Faults', 'Trace_Faults.cfg', env={'TRACE': tp, 'OUT': outp}, workers=1, timeout=600)
     chk.add_tlc('Trace_Faults(parse classes + sanitizer runs)', res, traces=1, events=len(evs))
     if res.ok and os.path.exists(outp):
-        for b in json.load(open(outp))['bad']:
+        verdict = json.load(open(outp))
+        for b in verdict['bad']:
             chk.violation(f"{b['cls']}:{b['key']}", f"{b['cls']} {b['key']} {b['detail'][:400]}", b)
+        for b in verdict.get('notes', []):
+            chk.beyond(f"{b['key']}: which strings yield a value differs from the reference reading (exact spelling / strtod); witness (hex) {b['detail'][:80]}")
     else:
         k = res.distinct - 1
         chk.violation('faults_trace_rejected', f'Trace_Faults rejected event {k}: {evs[k] if k < len(evs) else None}', evs[k] if k < len(evs) else None)
@@ -142,8 +145,8 @@ def run(tier):
     chk.cov['explanation'] = ('Table totality is decided by TLC on the extracted tables (Trace_Units). Everything else is observed: the conformance harnesses of the other properties '
                               '(table dumps and lookups through every enumerator, parser fuzz, tensor algebra, printing, models, directions and angles, the per-type battery) are rebuilt with '
                               'AddressSanitizer + UndefinedBehaviorSanitizer (-fno-sanitize-recover) and libstdc++ debug assertions and re-run; an uncaught exception, sanitizer report, assertion '
-                              'or abnormal exit becomes a Fault event that the trace specification records as a violation. Parsers: ten classes of byte strings (random bytes, long digit strings, '
-                              'huge exponents, inf/nan spellings, hex floats, whitespace, embedded NUL, non-ASCII) against the strtof/strtod/strtold oracle. Detection power is the sanitizers\'.')
+                              'or abnormal exit becomes a Fault event that the trace specification records as a violation. Parsers: twelve classes of byte strings (random bytes, long digit strings, '
+                              'huge exponents, inf/nan spellings, hex floats, leading whitespace, embedded NUL, non-ASCII, empty / whitespace-only strings, tokens padded with whitespace on either side) against the strtof/strtod/strtold oracle. Detection power is the sanitizers\'.')
     chk.cov['rule'] = 'one event per sanitized harness run and per (parse function, input class)'
     for e in pc[:2] + runs[:3]:
         chk.sample(e)
